@@ -295,3 +295,7 @@ func Thorough() bool { return os.Getenv("VERIF_TIER") == "thorough" }
 
 // Budget sets the per-path instruction budget (engine only).
 func Budget(steps int) {}
+
+// UseSolver routes the solver queries of this path to a one-shot back end
+// ("cvc5-int" = cvc5 --solve-bv-as-int=sum). No-op natively.
+func UseSolver(kind string) {}
